@@ -95,6 +95,11 @@ func c19BaseScenarios() []C19Scenario {
 		{"execution-errors", [][]store.Pair{d(), d()}, []C19Thread{
 			{[]string{"select key where value between 'b' and 'a'"}, 0, drv.Batch},
 			{[]string{"select key where l2_distance(list(1), list(1, 2)) > 0"}, 1, drv.Row}}},
+		// the same kinds of failure on both sides: an error value handed out by
+		// the library must belong to the statement that failed
+		{"same-errors-both-sides", [][]store.Pair{d(), d()}, []C19Thread{
+			{[]string{"select * where key =", "select * where key in", "put ('k1', 'v1'), ('k2'", "select * where key ^= 1", "select nosuch(key) where true", "select key where 1 / (strlen(key) - 2) > 0"}, 0, drv.Row},
+			{[]string{"select key, upper(value) where value !=", "select * where key ^= 'a' & value in", "put ('k9'", "select key where value ^= 2", "select key where nosuch(value) = 1", "select value where 2 / (strlen(key) - 2) > 1"}, 1, drv.Batch}}},
 		{"three-access-paths", [][]store.Pair{d()}, []C19Thread{
 			{[]string{"select * where key in ('a1', 'y1', 'zz')"}, 0, drv.Row},
 			{[]string{"select * where key ^= 'a'"}, 0, drv.Batch},
@@ -138,6 +143,9 @@ func c19RunStmts(th C19Thread, st kvql.Storage, point func(string)) string {
 		if err := o.Err(); err != nil {
 			if qb, ok := err.(kvql.QueryBinder); ok {
 				qb.BindQuery(q)
+				if point != nil {
+					point("render:" + q) // a caller binds, then formats later
+				}
 				s += " || " + strings.ReplaceAll(err.Error(), "\n", "\\n")
 			}
 		}
@@ -183,7 +191,7 @@ func (c19) Info() core.Info {
 		ID:    "C19",
 		Title: "Independent statements can run concurrently without races or interference",
 		Level: "model_checking",
-		Rule: "12 scenarios (each in three iteration-mode assignments: mixed, all row, all batch) of 2..3 statement threads chosen so that the threads meet on every piece of library-wide state (function and aggregate registries, batch size, cache switch, error padding, name tables) and on shared storage (readers with a put and a delete on disjoint key ranges); each thread parses, plans, executes and renders on its own goroutine under a cooperative scheduler whose scheduling points are every Storage/Cursor call and every access to a package-level variable (instrumented at check time into a build overlay); ALL schedules with at most 2 (thorough: 3) preemptions are explored depth-first (iterative context bounding). " +
+		Rule: "13 scenarios (each in three iteration-mode assignments: mixed, all row, all batch) of 2..3 statement threads chosen so that the threads meet on every piece of library-wide state (function and aggregate registries, batch size, cache switch, error padding, name tables) and on shared storage (readers with a put and a delete on disjoint key ranges); each thread parses, plans, executes and renders on its own goroutine under a cooperative scheduler whose scheduling points are every Storage/Cursor call and every access to a package-level variable (instrumented at check time into a build overlay); ALL schedules with at most 2 (thorough: 3) preemptions are explored depth-first (iterative context bounding). " +
 			"Oracle on every schedule: each thread's rows / errors / rendered messages equal its solo run and the final stores equal a sequential run; conflict monitor: no package-level variable is written by one thread and accessed by another (kvql has no synchronisation, so such a pair is a data race), and - heap-write monitor, instrumented the same way at every assignment through a pointer, field, slice element or map element of the library, with the collector off during an execution - no heap object is written by two different statement threads within one execution; no panic. A supporting, free-running pass of the same bodies under the Go race detector (not the deciding step) looks for unsynchronised heap sharing the scheduler cannot see. Non-trivial: schedules that switch between live threads. Distinct: (scenario, schedule).",
 		Assumptions: []string{
 			"the storage is thread-safe (the cooperative scheduler switches only at storage-call boundaries; the free-running pass uses a mutex-protected store)",
